@@ -525,6 +525,7 @@ pub fn all() -> Vec<(&'static str, &'static str, fn() -> R)> {
         ("C11", "crosslinked", c11_crosslinked),
         ("C11", "stale_clean_reader", c11_stale_clean_reader),
         ("C09", "length_units", c09_length_units),
+        ("C03", "mini_stream_drift", c03_mini_stream_drift),
         ("C12", "failed_refill", c12_failed_refill),
         ("C13", "flush_retry", c13_flush_retry),
         ("C13", "failed_set_len", c13_failed_set_len),
@@ -849,6 +850,55 @@ pub fn c11_stale_clean_reader() -> R {
                 let _ = h1.flush();
                 (n, pos, len)
             })?;
+        }
+    }
+    Ok(())
+}
+
+/// A file whose mini stream ends in free mini sectors (legal; other writers leave them): the
+/// loader trims the trailing FREE entries of the MiniFAT but keeps the root entry's length.
+/// Allocating mini sectors afterwards must not let the mini stream outgrow what the MiniFAT
+/// describes (every mini sector needs a MiniFAT cell), nor grow it when it already has room.
+pub fn c03_mini_stream_drift() -> R {
+    for v in [Version::V3, Version::V4] {
+        let sl = v.sector_len();
+        let per = sl / 4; // MiniFAT entries per sector
+        let (buf, mut c) = fresh(v);
+        c.create_stream("/a").unwrap().write_all(&[1u8; 100]).unwrap(); // 2 mini sectors
+        drop(c);
+        let mut bytes = buf.snapshot();
+        let dir_start = u32::from_le_bytes(bytes[48..52].try_into().unwrap()) as usize;
+        let root = (dir_start + 1) * sl;
+        // three more (free) mini sectors at the end of the mini stream: its one container sector
+        // has room for them and their MiniFAT cells are FREE already
+        let extra = 3u64;
+        let len0 = u64::from_le_bytes(bytes[root + 120..root + 128].try_into().unwrap());
+        bytes[root + 120..root + 128].copy_from_slice(&(len0 + 64 * extra).to_le_bytes());
+        let b = SharedBuf::new(bytes);
+        let mut c = CompoundFile::open_strict(b.clone()).map_err(|e| format!("{:?}: strict open rejects trailing free mini sectors: {}", v, e))?;
+        let before = c.root_entry().len();
+        // one more small stream of one mini sector: the mini stream has room for it
+        c.create_stream("/b").unwrap().write_all(&[2u8; 10]).unwrap();
+        let after = c.root_entry().len();
+        if after > before {
+            return Err(format!("{:?}: the mini stream had {} free mini sectors at its end, yet allocating one mini sector grew it from {} to {} bytes", v, extra, before, after));
+        }
+        // fill up to the capacity of the one MiniFAT sector
+        let mut k = 0;
+        loop {
+            let snap = b.snapshot();
+            let nmf = u32::from_le_bytes(snap[64..68].try_into().unwrap()) as u64;
+            let dir_start = u32::from_le_bytes(snap[48..52].try_into().unwrap()) as usize;
+            let root = (dir_start + 1) * sl;
+            let rlen = u64::from_le_bytes(snap[root + 120..root + 128].try_into().unwrap());
+            if rlen / 64 > nmf * per as u64 {
+                return Err(format!("{:?}: the mini stream has {} mini sectors but the {} MiniFAT sector(s) describe only {}", v, rlen / 64, nmf, nmf * per as u64));
+            }
+            if nmf > 1 || k > 2 * per {
+                break;
+            }
+            k += 1;
+            c.create_stream(format!("/s{}", k)).unwrap().write_all(&[3u8; 64]).unwrap();
         }
     }
     Ok(())
